@@ -675,6 +675,8 @@ if parallel.use_mpi():
             patches = split_into_patches(worker_chunk, patch_centers)
             parallel.COMM.send(patches, dest=worker_config.writer_rank, tag=1)
 
+        # messages from one sender arrive in order, signal that this rank is done
+        parallel.COMM.send(EndOfQueue, dest=worker_config.writer_rank, tag=1)
         comm.Barrier()
 
     def writer_task(
@@ -684,10 +686,11 @@ if parallel.use_mpi():
         overwrite: bool = True,
         buffersize: int = -1,
         num_expected: int | None = None,
+        num_senders: int = 1,
     ) -> None:
         """A dedicated writer process that recieves a dictionary with patch IDs
         and patch data to write using a :obj:`CatalogWriter`, terminated when
-        receiving :obj:`EndOfQueue` sentinel."""
+        receiving an :obj:`EndOfQueue` sentinel from every sending rank."""
         recv = parallel.COMM.recv
         with CatalogWriter(
             cache_directory,
@@ -696,8 +699,12 @@ if parallel.use_mpi():
             buffersize=buffersize,
             num_expected=num_expected,
         ) as writer:
-            while (patches := recv(source=MPI.ANY_SOURCE, tag=1)) is not EndOfQueue:
-                writer.process_patches(patches)
+            while num_senders > 0:
+                patches = recv(source=MPI.ANY_SOURCE, tag=1)
+                if patches is EndOfQueue:
+                    num_senders -= 1
+                else:
+                    writer.process_patches(patches)
 
     def write_patches(
         path: Path | str,
@@ -764,6 +771,7 @@ if parallel.use_mpi():
                 overwrite=overwrite,
                 buffersize=buffersize,
                 num_expected=None if patch_centers is None else len(patch_centers),
+                num_senders=len(worker_config.active_ranks),
             )
 
         elif rank in worker_config.active_ranks:
@@ -781,8 +789,6 @@ if parallel.use_mpi():
 
             worker_comm.Free()
 
-        if parallel.COMM.Get_rank() == worker_config.reader_rank:
-            parallel.COMM.send(EndOfQueue, dest=worker_config.writer_rank, tag=1)
         parallel.COMM.Barrier()
 
 else:
